@@ -2,7 +2,7 @@
 From Coq Require Import List Bool Arith NArith QArith.
 Import ListNotations.
 Require Import Coin CoinWord Rare Chain XorConv.
-Require GenProofs_FrameNoise.
+Require GenProofs_FrameNoise GenProofs_PauliChan.
 
 (* the coin stage of biased_randomize_bits: exactly p_top_bits of the 256 equally likely 8-coin strings yield a 1, for every
    p_top_bits < 128 (every probability the stage is used for) *)
@@ -35,5 +35,9 @@ Proof. exact depolarize1_independent. Qed.
    p = 1 + rng() % K maps bijectively onto the non-identity Paulis (pairs): the documented uniform mixture *)
 Theorem C05_frame_noise_routines_are_documented_mixtures : GenProofs_FrameNoise.frame_noise_all_ok = true.
 Proof. exact GenProofs_FrameNoise.frame_noise_routines_are_documented_mixtures. Qed.
+(* PAULI_CHANNEL_1/2 in both simulators: argument k is applied as exactly the documented Pauli (pair), first target = leading symbol
+   (decoding regenerated from source); with C05_chain_is_disjoint each outcome fires with exactly its documented probability *)
+Theorem C05_pauli_channel_arguments_decoded_as_documented : GenProofs_PauliChan.paulichan_all_ok = true.
+Proof. exact GenProofs_PauliChan.pauli_channel_arguments_are_decoded_as_documented. Qed.
 Print Assumptions C05_coin_stage_probability. Print Assumptions C05_word_model_lanes_are_coin_stages.
 Print Assumptions C05_gap_sampling_is_bernoulli. Print Assumptions C05_chain_is_disjoint.
